@@ -263,6 +263,21 @@ def run_shards(prop, specs, shard_timeout, max_parallel=None, env_extra=None):
 # verdict + evidence
 
 
+def _no_huge_ints(x):
+    """Evidence is read by programs that keep the interpreter's limit on int <-> str conversion: an int of more than 1000
+    digits in a sample is written as a short description."""
+    if isinstance(x, bool):
+        return x
+    if isinstance(x, int) and abs(x) >= 10 ** 1000:
+        return f"<int of {len(str(abs(x)))} digits>"
+    if isinstance(x, dict):
+        return {(k if not (isinstance(k, int) and not isinstance(k, bool) and abs(k) >= 10 ** 1000) else f"<int of {len(str(abs(k)))} digits>"): _no_huge_ints(v)
+                for k, v in x.items()}
+    if isinstance(x, (list, tuple)):
+        return [_no_huge_ints(v) for v in x]
+    return x
+
+
 def finish(mod, tier, seed, shard_results, t0, extra_coverage=None):
     """Merges shard results, writes evidence, prints verdict lines, returns exit code."""
     prop = mod.PROP
@@ -346,7 +361,7 @@ def finish(mod, tier, seed, shard_results, t0, extra_coverage=None):
     evp = os.path.join(VERIF_ROOT, "evidence", f"{prop}.json")
     tmp = evp + ".tmp"
     with open(tmp, "w") as f:
-        json.dump(ev, f, indent=1, default=repr)
+        json.dump(_no_huge_ints(ev), f, indent=1, default=repr)
     os.replace(tmp, evp)
 
     for mech, vs in sorted(known_hits.items()):
@@ -360,7 +375,7 @@ def finish(mod, tier, seed, shard_results, t0, extra_coverage=None):
         print(f"    {k} = {counters[k]}")
     if new_violations:
         for mech, path, summary, n in replay_paths:
-            print(f"    mechanism {mech} ({n}x): {summary}")
+            print(f"    mechanism {mech} ({n}x): {summary if len(summary) < 1500 else summary[:1200] + " ...(" + str(len(summary)) + " characters)"}")
             print(f"VIOLATION property={prop} replay={path}")
         return 1
     if broken:
